@@ -193,6 +193,7 @@ void EGLPNUM_TYPENAME_ILLerror_memory_free (
 		while (ths != NULL)
 		{
 			nxt = ths->next;
+			EGLPNUM_TYPENAME_ILLformat_error_delete (ths);	/* the description and the line are owned by the entry */
 			ILL_IFFREE(ths);
 			ths = nxt;
 		}
